@@ -23,7 +23,7 @@
 
 From Coq Require Import PrimFloat.
 From Coq Require Import ZArith List Bool Reals Lra Permutation Sorted.
-From BZ Require Import Base.Ops Gen.Point Gen.Line Gen.Quad Gen.Cubic Hand.Sample Hand.Shoelace Proofs.C16 Proofs.C17.
+From BZ Require Import Base.Ops Gen.Point Gen.Line Gen.Quad Gen.Cubic Gen.Sample Hand.Sample Hand.Shoelace Proofs.C16 Proofs.C17 Proofs.Bridge2.
 Import ListNotations.
 Open Scope R_scope.
 
@@ -51,6 +51,11 @@ Proof. exact edge_count_refuted. Qed.
 Theorem C17_flatten_nonvacuous :
   Cubic_flatten FOps 4096 arch 1000%float = Ok [(L2 (P 0 0) (P 100 0), Some (SCubic arch))]%float /\ match Cubic_flatten FOps 4096 arch 8%float with Ok es => length es | Raise _ => 0%nat end = 25%nat /\ (let c := C4 (P 0 0) (P 1 0) (P 2 0) (P 3 0) in ~ Cubic_length ROps c < 1 /\ exists es, Cubic_flatten ROps 8 c 1 = Ok es).
 Proof. exact flatten_nonvacuous. Qed.
+(* the hand-written sampling loops ARE the loops regenerated from the source by the translator (Proofs/Bridge2.v): for every scalar carrier whose
+   literals 1.0 / 0.0 are the integers 1 / 0 (true of R and of binary64: lit_ok_R, lit_ok_F), with out-of-fuel on one side iff on the other *)
+Theorem C17_seg_flatten_is_generated :
+  forall (T : Type) (O : Ops T), lit_ok O -> forall cap (s : segment T * option (segment T)) (degree : T) fuel, eqb O degree (zero O) = false -> eqb O (dvd O (seg_length O (fst s)) degree) (zero O) = false -> (fuel_of O cap (seg_length O (fst s)) + 3 <= fuel)%nat -> (fuel_of O cap (dvd O (seg_length O (fst s)) degree) + 3 <= fuel)%nat -> finished (seg_flatten O cap s degree) -> seg_flatten O cap s degree = res_of (gen_seg_flatten O fuel s degree).
+Proof. exact @seg_flatten_gen. Qed.
 
 Print Assumptions C17_curve_flatten_spec.
 Print Assumptions C17_quad_flatten_uniform.
@@ -60,3 +65,4 @@ Print Assumptions C17_flatten_no_raise.
 Print Assumptions C17_path_flatten_spec.
 Print Assumptions C17_edge_count_refuted.
 Print Assumptions C17_flatten_nonvacuous.
+Print Assumptions C17_seg_flatten_is_generated.
